@@ -43,3 +43,7 @@ mod tls_listener;
 mod tunnel;
 mod udp_forwarder;
 mod udp_pipe;
+
+/// Doors for the external verification harness. Additive only, compiled with `--features verif`.
+#[cfg(feature = "verif")]
+pub mod verif_hooks;
